@@ -8,7 +8,7 @@ flag are compared with the model's step.
 import itertools
 import random
 
-from harness import core, vconn, vrt
+from harness import core, vconn, vrt, concdrv
 from harness.core import coq_nat, coq_list, coq_bool
 
 STATES = {0: 'CLOSED', 1: 'CLOSING', 2: 'OPENING', 3: 'OPEN'}
@@ -22,8 +22,9 @@ def op_coq(op):
                         coq_nat(op[1]))
 
 
-class Driver(object):
+class Driver(concdrv.ConcMixin):
     PID = 'C10'
+    CONC = [('alloc', concdrv.gen_alloc, 'conc_alloc_ok', 60, 800)]
     MODEL_TARGETS = ['Model/ChanAlloc.vo']
     SPEC = dict(
         header='From AV Require Import Lib.Base Model.ChanAlloc.',
@@ -139,10 +140,12 @@ class Driver(object):
             w = [6, 1, 1] + [2, 1] * mx
             n = rnd.randrange(3, 41)
             out.append((mx, tuple(rnd.choices(alpha, weights=w, k=n))))
-        return [self.make_case(mx, ops) for mx, ops in out]
+        return [self.make_case(mx, ops) for mx, ops in out] + self.conc_cases(tier, seed)
 
     def replay_cases(self, doc):
         c = doc['case']
+        if c.get('conc'):
+            return self.conc_replay(c)
         return [self.make_case(c['max'], c['ops'])]
 
     def shrink(self, case):
@@ -152,6 +155,9 @@ class Driver(object):
         st = {'by_max': {}, 'ops': {}, 'len_hist': {}}
         for c in cases:
             m = c['meta']
+            if m.get('conc'):
+                st['concurrent_runs'] = st.get('concurrent_runs', 0) + 1
+                continue
             st['by_max'][m['max']] = st['by_max'].get(m['max'], 0) + 1
             ln = min(len(m['ops']) // 5 * 5, 40)
             st['len_hist'][ln] = st['len_hist'].get(ln, 0) + 1
